@@ -752,10 +752,11 @@ static Rsp c19_cmd(Buf *b, const char *name) {
     return r;
 }
 /* read-only battery: digest of the answers of a fixed list of read-only commands */
+static int c19_battery_skip_resettable;      /* the battery around TPM_SaveState / Startup(ST_STATE) leaves out the resettable PCRs 16..23 */
 static void c19_battery(Buf *b, const char *phase) {
     SHA_CTX c; SHA1_Init(&c); int n = 0, fails = 0;
 #define BAT() do { b_put32(b, 2, (uint32_t)b->n); Rsp r = run_raw(b->p, (uint32_t)b->n); SHA1_Update(&c, r.p, r.len); n++; if (r.rc) fails++; } while (0)
-    for (uint32_t i = 0; i < 24; i++) { t12_begin(b, T12_TAG0, T12_ORD_PcrRead); b_u32(b, i); BAT(); }
+    for (uint32_t i = 0; i < (c19_battery_skip_resettable ? 16u : 24u); i++) { t12_begin(b, T12_TAG0, T12_ORD_PcrRead); b_u32(b, i); BAT(); }
     static const uint32_t caps[][2] = {{4, 0x108}, {4, 0x109}, {5, 0x101}, {5, 0x103}, {5, 0x104}, {5, 0x107}, {5, 0x10C}, {5, 0x10F}, {5, 0x110},
                                        {5, 0x111}, {5, 0x114}, {5, 0x117}, {5, 0x122}, {5, 0x123}, {5, 0x124}, {0x1A, 0}, {0xD, 0}, {0x19, 0}};
     for (size_t k = 0; k < sizeof caps / sizeof caps[0]; k++) {
@@ -768,7 +769,11 @@ static void c19_battery(Buf *b, const char *phase) {
         t12_begin(b, T12_TAG0, T12_ORD_NV_ReadValue); b_u32(b, 0x00011200u + i); b_u32(b, 0); b_u32(b, 8); BAT();
     }
     for (uint32_t i = 0; i < 4; i++) { t12_begin(b, T12_TAG0, T12_ORD_ReadCounter); b_u32(b, i); BAT(); }
-    t12_begin(b, T12_TAG0, T12_ORD_GetCapability); b_u32(b, 0x14); b_u32(b, 4); b_u32(b, 2); BAT();   /* loaded auth session handles */
+    for (uint32_t rt = 1; rt <= 6; rt++) {                     /* handle lists: keys, auth sessions, transport sessions, ..., counters */
+        if (rt == 3 || rt == 5) continue;
+        t12_begin(b, T12_TAG0, T12_ORD_GetCapability); b_u32(b, 0x14); b_u32(b, 4); b_u32(b, rt); BAT();
+    }
+    t12_begin(b, T12_TAG0, T12_ORD_GetCapability); b_u32(b, 0x07); b_u32(b, 0); BAT();                   /* TPM_CAP_KEY_HANDLE */
 #undef BAT
     uint8_t md[20]; SHA1_Final(md, &c);
     tr_begin("battery phase=%s n=%d errors=%d", phase, n, fails); trhex("sha", md, 20); tr_end();
@@ -793,6 +798,15 @@ static int c19_suspend_resume(Buf *b) {
     }
     tr("resume get=%u/%u/%u set=%u/%u/%u maininit=%u storage=%d eqperm=%d eqvol=%d eqsave=%d lens=%u/%u/%u", g[0], g[1], g[2], sres[0], sres[1], sres[2], mi,
        with_storage, eq[0], eq[1], eq[2], len[0], len[1], len[2]);
+    /* the blobs RE-TAKEN after the resume must be accepted as well (second resume from them) */
+    if (mi == TPM_SUCCESS && ar[0] == TPM_SUCCESS && ar[1] == TPM_SUCCESS && ar[2] == TPM_SUCCESS && chance(35)) {
+        TPM_RESULT s2[3], mi2 = 0xFFFF;
+        TPMLIB_Terminate();
+        for (int k = 0; k < 3; k++) s2[k] = TPMLIB_SetState(c19_ty[k], after[k], alen[k]);
+        if (!iso_before("MainInit-after-second-SetState", 30)) { mi2 = TPMLIB_MainInit(); iso_after(); }
+        tr("resume get=0/0/0 set=%u/%u/%u maininit=%u storage=%d eqperm=1 eqvol=1 eqsave=1 lens=%u/%u/%u second=1", s2[0], s2[1], s2[2], mi2, with_storage, alen[0], alen[1], alen[2]);
+        mi = mi2;
+    }
     for (int k = 0; k < 3; k++) { free(blob[k]); free(after[k]); }
     if (mi != TPM_SUCCESS) return 0;
     c19_battery(b, "after");
@@ -812,6 +826,88 @@ static int c19_powercut(Buf *b) {
     t12_begin(b, T12_TAG0, T12_ORD_Startup); b_u16(b, 1); c19_cmd(b, "startup");
     char live[48], stored[48]; c19_live_perm(live); c19_stored_perm(stored);
     tr("sync live=%s stored=%s", live, stored);
+    return 1;
+}
+/* TPM_SaveState, power cycle, TPM_Startup(ST_STATE): the saved state must be accepted and the resumed TPM must answer the
+ * battery (without the resettable PCRs) as before */
+static int c19_savestate_restart(Buf *b) {
+    c19_battery_skip_resettable = 1; c19_battery(b, "sbefore"); c19_battery_skip_resettable = 0;
+    t12_begin(b, T12_TAG0, T12_ORD_SaveState); Rsp r = c19_cmd(b, "savestate");
+    if (r.rc != 0) return 1;
+    TPMLIB_Terminate();
+    blob_clear(&g_store[ST_VOL]);
+    if (iso_before("MainInit-after-savestate", 24)) return 0;
+    TPM_RESULT mi = TPMLIB_MainInit(); iso_after();
+    tr("restart ret=%u", mi);
+    if (mi != TPM_SUCCESS) return 0;
+    if (getenv("VERIF_DEBUG_STSTATE")) { int fd = open(getenv("VERIF_DEBUG_STSTATE"), O_WRONLY | O_CREAT | O_APPEND, 0600); TPMLIB_SetDebugFD(fd); TPMLIB_SetDebugLevel(10); }
+    t12_begin(b, T12_TAG0, T12_ORD_Startup); b_u16(b, 2); r = c19_cmd(b, "startup-state");
+    if (getenv("VERIF_DEBUG_STSTATE")) TPMLIB_SetDebugLevel(0);
+    tr("ststate rc=%u", r.rc);
+    { char live[48], stored[48]; c19_live_perm(live); c19_stored_perm(stored); tr("sync live=%s stored=%s", live, stored); }
+    if (r.rc != 0) {                                            /* refused saved state: the TPM is in its failed state; start over from storage */
+        TPMLIB_Terminate(); mi = TPMLIB_MainInit(); tr("restart ret=%u", mi);
+        if (mi != TPM_SUCCESS) return 0;
+        t12_begin(b, T12_TAG0, T12_ORD_Startup); b_u16(b, 1); c19_cmd(b, "startup");
+        char live[48], stored[48]; c19_live_perm(live); c19_stored_perm(stored); tr("sync live=%s stored=%s", live, stored);
+        return 1;
+    }
+    c19_battery_skip_resettable = 1; c19_battery(b, "safter"); c19_battery_skip_resettable = 0;
+    return 1;
+}
+/* an owner (EK + SRK: two RSA key generations), a counter pair, transport sessions */
+static int c19_owner; static uint32_t c19_counters[6]; static int c19_ncounters;
+static void c19_install_owner(Buf *b) {
+    static const uint8_t own[20] = {9, 8, 7, 6, 5, 4, 3, 2, 1, 0, 9, 8, 7, 6, 5, 4, 3, 2, 1, 0}, srk[20] = {0};
+    t12c_run = c19_cmd; memset(&g12c, 0, sizeof g12c);
+    if (t12c_create_ek(b) != 0) return;
+    if (t12c_take_ownership(b, own, srk) != 0) return;
+    c19_owner = 1;
+}
+/* holes in the handle tables: open several sessions / objects, remove an EARLIER one, then suspend or save the state at once */
+static int c19_holes(Buf *b) {
+    static const uint8_t cauth[20] = {0xC0, 1, 2, 3, 4, 5, 6, 7, 8, 9, 10, 11, 12, 13, 14, 15, 16, 17, 18, 19};
+    T12cSess s[3]; int n = 0;
+    t12c_run = c19_cmd;
+    for (int i = 0; i < 3; i++) {                               /* TPM_MIN_AUTH_SESSIONS = 3 */
+        uint32_t rc;
+        if (c19_owner && chance(40)) rc = t12c_osap(b, &s[n], T12C_ET_OWNER, T12C_KH_OWNER, g12c.ownerAuth);
+        else if (chance(30)) { uint8_t z[20] = {0}; rc = t12c_osap(b, &s[n], T12C_ET_NV, 0x00011200u, z); }
+        else { rc = t12c_oiap(b, &s[n]); if (rc == 0 && c19_owner) memcpy(s[n].secret, g12c.ownerAuth, 20); }
+        if (rc == 0) n++;
+    }
+    if (n >= 2) {
+        int victim = rnd(n - 1);                                /* never the last one: a hole, not a shorter table */
+        switch (rnd(c19_owner ? 3 : 2)) {
+        case 0: t12c_flush_specific(b, s[victim].handle, 2); break;          /* TPM_RT_AUTH */
+        case 1: t12c_terminate_handle(b, s[victim].handle); break;
+        default:                                                /* an owner-authorized command with continueAuthSession = FALSE */
+            t12_begin(b, T12_TAG1, T12_ORD_NV_ReadValue); b_u32(b, 0x10000001u); b_u32(b, 0); b_u32(b, 20);
+            t12c_finish1(b, "nvread-dir-owner", 0, 0, &s[victim], NULL, 0, 0, 0, NULL, NULL); break;
+        }
+        tr("holes kind=auth open=%d victim=%d", n, victim);
+    }
+    if (c19_owner) {
+        if (chance(50)) {                                       /* transport sessions: TPM_MIN_TRANS_SESSIONS = 3 */
+            T12cSess t[3]; int nt = 0;
+            for (int i = 0; i < 3; i++) if (t12c_establish_transport_attr(b, &t[nt], chance(70) ? 0 : T12C_TRANSPORT_LOG) == 0) nt++;
+            if (nt >= 2) { int v = rnd(nt - 1); t12c_flush_specific(b, t[v].handle, 4); tr("holes kind=trans open=%d victim=%d", nt, v); }
+        }
+        if (chance(50) && c19_ncounters < 2) {                  /* counters: create two, release the first */
+            uint32_t v = 0, id = 0;
+            if (t12c_counter_create(b, cauth, (const uint8_t *)"cnt0", &id, &v, 0, NULL) == 0) c19_counters[c19_ncounters++] = id;
+            if (t12c_counter_create(b, cauth, (const uint8_t *)"cnt1", &id, &v, 0, NULL) == 0) c19_counters[c19_ncounters++] = id;
+            if (c19_ncounters >= 2) {
+                if (chance(50)) t12c_counter_release_owner(b, NULL, c19_counters[0], 0, NULL); else t12c_counter_release(b, NULL, c19_counters[0], cauth, 0, NULL);
+                tr("holes kind=counter n=%d", c19_ncounters);
+                memmove(c19_counters, c19_counters + 1, sizeof c19_counters[0] * (size_t)(--c19_ncounters));
+            }
+        }
+    }
+    int ok = chance(55) ? c19_suspend_resume(b) : c19_savestate_restart(b);
+    if (!ok) return 0;
+    /* the survivors are still usable, the removed one is not: closing them all must answer the same way as it would have */
+    for (int i = 0; i < n; i++) t12c_terminate_handle(b, s[i].handle);
     return 1;
 }
 /* blob mutations through SetState: every mutant must be rejected or accepted without a memory error; afterwards a
@@ -950,9 +1046,12 @@ static void c19_history(int h, void *arg) {
     t12_begin(&b, T12_TAG0, T12_TSC_PhysicalPresence); b_u16(&b, 0x20); c19_cmd(&b, "tscpp");
     t12_begin(&b, T12_TAG0, T12_TSC_PhysicalPresence); b_u16(&b, 0x08); c19_cmd(&b, "tscpp");
     t12_begin(&b, T12_TAG0, T12_ORD_NV_DefineSpace); t12_nv_public(&b, 0x00011200u, 0x10001, 24); b_fill(&b, 20, 1); c19_cmd(&b, "nvdefine");
+    c19_owner = 0; c19_ncounters = 0;
+    if (h % 10 == 2 || h % 10 == 7) c19_install_owner(&b);      /* two RSA key generations */
     for (int i = 0; i < nops; i++) {
         int k = rnd(100);
-        if (k < 78) c19_random_cmd(&b);
+        if (k < 5) { if (!c19_holes(&b)) break; }
+        else if (k < 78) c19_random_cmd(&b);
         else if (k < 84) { if (!c19_suspend_resume(&b)) break; }
         else if (k < 88) { if (!c19_powercut(&b)) break; }
         else if (k < 92) { if (!c19_mutations(&b, 25)) break; }
@@ -989,6 +1088,14 @@ static void scen_replay12(const char *path) {
             tr("fresh maxbuf=%u", tpm12_maxbuf());
         } else if (!strncmp(line, "restart", 7) && live) {
             TPMLIB_Terminate(); tr("restart ret=%u", TPMLIB_MainInit());
+        } else if (!strncmp(line, "resume", 6) && live) {        /* suspend/resume through the three state blobs */
+            unsigned char *blob[3] = {0}; uint32_t len[3] = {0}; TPM_RESULT ret = 0;
+            for (int k = 0; k < 3; k++) ret |= TPMLIB_GetState(c19_ty[k], &blob[k], &len[k]);
+            TPMLIB_Terminate();
+            for (int k = 0; k < 3; k++) ret |= TPMLIB_SetState(c19_ty[k], blob[k], len[k]);
+            ret |= TPMLIB_MainInit();
+            for (int k = 0; k < 3; k++) free(blob[k]);
+            tr("resume ret=%u", ret);
         } else if (!strncmp(line, "cmd ", 4) && live) {
             char *q = strstr(line, " req="), *l = strstr(line, " loc=");
             if (!q) continue;
